@@ -27,6 +27,9 @@ DRIVERS = {
 }
 
 
+PROBES = ("isinstance_probe", "truthiness_probe", "equality_probe")
+
+
 class Strict(Ext):
     """a bare user object: answers only to the protocol members"""
 
@@ -34,6 +37,7 @@ class Strict(Ext):
         self.kind, self.members, self.log = kind, members, log
         self.results = list(results or [])
         self.type_name = f"user {kind}"
+        self.truthy, self.equal_to_others = True, False
 
     def py_getattr(self, I, name):
         if name not in self.members:
@@ -63,7 +67,18 @@ class Strict(Ext):
         return False
 
     def py_truth(self, I):
-        return True
+        # bool(obj) consults __bool__ / __len__: neither is a protocol member (a conforming component may well be "empty")
+        self.log.append(("truthiness_probe", self.kind))
+        return self.truthy
+
+    def py_compare(self, I, op, other, reflected):
+        # == / != consult __eq__: not a protocol member either (two distinct components may compare equal)
+        if op in ("Eq", "NotEq") and other is not self:
+            self.log.append(("equality_probe", self.kind))
+            return (op == "Eq") == self.equal_to_others
+        if op in ("Eq", "NotEq"):
+            return op == "Eq"
+        return NotImplemented
 
     def py_type(self, I):
         from pyvc.objects import BuiltinType
@@ -136,7 +151,7 @@ def build(S, tier):
                 continue
             v = p.value
             log, hist = v["log"], v["sim"].attrs["move_history"]
-            foreign = [e for e in log if e[0].startswith("foreign") or e[0] == "isinstance_probe"]
+            foreign = [e for e in log if e[0].startswith("foreign") or e[0] in PROBES]
             S.prove(f"{label}#frame.only_protocol_members_touched@{i}", not foreign, kind="frame", why=str(foreign[:4]))
             S.prove(f"{label}#ensures.add_move_with_explicit_criteria_stores_both@{i}",
                     v["sim"].attrs["moves"]["user"].attrs.get("move") is v["move"] and v["sim"].attrs["moves"]["user"].attrs.get("criteria") is v["crit"], kind="ensures")
@@ -228,10 +243,64 @@ def build(S, tier):
             S.prove(f"{label}#ensures.cell_change_notified_once_iff_the_cell_changed@{i}", z3.Not(same) if notes else same, hyps=p.pc)
             S.prove(f"{label}#ensures.at_most_one_notification_with_the_new_cell@{i}",
                     len(notes) <= 1 and all(isinstance(e[2][0], CellModel) and all(x is y for x, y in zip(e[2][0].array.data, v["new"].data)) for e in notes), kind="ensures", why=str(notes))
-            S.prove(f"{label}#frame.only_protocol_members_touched@{i}", not [e for e in v["log"] if e[0].startswith("foreign") or e[0] == "isinstance_probe"], kind="frame")
+            S.prove(f"{label}#frame.only_protocol_members_touched@{i}", not [e for e in v["log"] if e[0].startswith("foreign") or e[0] in PROBES], kind="frame")
             S.prove(f"{label}#ensures.state_saved@{i}", ("context", "save_state") in v["log"], kind="ensures")
         if not any(q.status == "unsupported" for q in paths):
             S.prove(f"{label}#cover.changed_and_unchanged", seen == {True, False}, kind="cover", why=str(seen))
+
+    # ------------------------------------------------------------------ components that are "empty" or compare equal to one another
+    for qn, kw in DRIVERS.items():
+        short = qn.split(".")[-1]
+
+        def run_falsy(I, qn=qn, kw=kw):
+            log = []
+            I.loader.models["ase.atoms"].attrs["Atoms"] = Builtin("Atoms", lambda I_, a, k: AtomsSer(I_, 0, tag="empty"))
+            sim = I.call(I.get_class(qn), [AtomsSer(I, 2)], dict(kw, seed=1, max_cycles=2))
+            move = Strict("move", protocol_members(I, "Move"), log)
+            crit = Strict("criteria", protocol_members(I, "Criteria"), log)
+            move.truthy = crit.truthy = False              # e.g. container-like components holding nothing: still conforming
+            I.call(I.getattr(sim, "add_move"), [move], {"criteria": crit, "name": "user"})
+            st = sim.attrs["moves"]["user"]
+            return dict(log=log, stored=(st.attrs.get("move") is move, st.attrs.get("criteria") is crit))
+
+        label = f"{short}.add_move[falsy user move and criteria]"
+        for i, p in enumerate(S.explore(run_falsy, label)):
+            S.adopt(p, prefix=label + ":")
+            if p.status == "unsupported":
+                continue
+            if p.status != "return":
+                S.prove(f"{label}#noraise@{i}", False, kind="noraise", why=f"raises {p.exc!r}")
+                continue
+            S.prove(f"{label}#ensures.explicit_criteria_is_stored_whatever_its_truth_value@{i}", p.value["stored"] == (True, True), kind="ensures", why=str(p.value["stored"]))
+            S.prove(f"{label}#frame.only_protocol_members_touched@{i}", not [e for e in p.value["log"] if e[0].startswith("foreign") or e[0] in PROBES], kind="frame",
+                    why=str([e for e in p.value["log"] if e[0].startswith("foreign") or e[0] in PROBES][:4]))
+
+    def run_equal_moves(I):
+        log = []
+        sim, move, crit, atoms = setup(I, "quansino.mc.gcmc.GrandCanonical", {}, [], [], log)
+        move2 = Strict("move", protocol_members(I, "Move"), log)
+        move.equal_to_others = move2.equal_to_others = True            # distinct objects that compare equal (e.g. dataclasses)
+        move.tag, move2.tag = "first", "second"
+        I.call(I.getattr(sim, "add_move"), [move2], {"criteria": crit, "name": "user2"})
+        n_add = len(log)
+        ctx = sim.attrs["context"]
+        ctx.attrs["_added_indices"] = ("added-index-set",)
+        ctx.attrs["_deleted_indices"] = ("deleted-index-set",)
+        I.call(I.getattr(sim, "save_state"), [], {})
+        return dict(log=log[n_add:], moves=(move, move2))
+
+    label = "GrandCanonical.save_state[two user moves that compare equal]"
+    for i, p in enumerate(S.explore(run_equal_moves, label)):
+        S.adopt(p, prefix=label + ":")
+        if p.status == "unsupported":
+            continue
+        if p.status != "return":
+            S.prove(f"{label}#noraise@{i}", False, kind="noraise", why=f"raises {p.exc!r}")
+            continue
+        notes = [e for e in p.value["log"] if e[:2] == ("move", "on_atoms_changed")]
+        S.prove(f"{label}#ensures.each_distinct_move_notified_once@{i}", len(notes) == 2, kind="ensures", why=str(notes))
+        S.prove(f"{label}#frame.only_protocol_members_touched@{i}", not [e for e in p.value["log"] if e[0].startswith("foreign") or e[0] in PROBES], kind="frame",
+                why=str([e for e in p.value["log"] if e[0].startswith("foreign") or e[0] in PROBES][:4]))
 
     # ------------------------------------------------------------------ default-criteria lookup is the only isinstance probe
     def run_default(I):
